@@ -1,6 +1,7 @@
 import Cactus.Lemmas.Release
 import Cactus.Lemmas.ReleaseSem
 import Cactus.Lemmas.Basic
+import Cactus.Lemmas.Shared.OneStep   -- `Shared.decWeakFree_released` (also used by `Props/C02.lean`)
 /-!
 # C04 — destroyed objects return all memory
 
@@ -73,9 +74,8 @@ theorem C04_finishSingle (s : State) (o : Nat) (ob : Obj) (t : Table) (hc : s.ce
 /-- an allocation is never released twice: releasing a released allocation is reported as an
 error, never silently performed -/
 theorem C04_no_double_release (s : State) (o : Nat) (imp : Bool) (h : s.cell o = none) (he : s.err = none) :
-    (s.decWeakFree o imp).err = some (.uaf o) ∧ (s.decWeakFree o imp).heap = s.heap := by
-  unfold State.decWeakFree
-  simp [h, fail_err_of_none _ _ he]
+    (s.decWeakFree o imp).err = some (.uaf o) ∧ (s.decWeakFree o imp).heap = s.heap :=
+  Shared.decWeakFree_released s o imp h he
 
 example : (({ heap := [{ strong := .uninit, weak := 1, links := some [], value := none, freed := false }] } : State).finishSingle 0).heap
     = [{ strong := .uninit, weak := 0, links := none, value := none, freed := true, implicit := false }] := by decide
